@@ -286,7 +286,11 @@ func exclFor(m *spec.Msg) Excl {
 	}
 	walk = func(m *spec.Msg, prefix string) {
 		for _, e := range m.Excluded {
-			set[join(prefix, e.Go)] = true
+			if e.Oneof != "" {
+				set[join(join(prefix, e.Oneof), e.Go)] = true
+			} else {
+				set[join(prefix, e.Go)] = true
+			}
 		}
 		for _, a := range m.Attrs {
 			if a.Kind == spec.Custom {
